@@ -50,15 +50,24 @@ THEOREMS = [
     "XalanModel.Props.C20.vector_resizeSelf_refines",
     "XalanModel.Props.C20.vector_alias_as_written_counterexample",
     "XalanModel.Props.C20.map_step_refines",
-    "XalanModel.Props.C20.map_refines_partial",
+    "XalanModel.Props.C20.map_refines",
+    "XalanModel.Props.C20.map_copy_refines",
     "XalanModel.Props.C20.map_new_inv",
     "XalanModel.Props.C20.map_swap_inv",
     "XalanModel.Props.C20.deque_step_refines",
     "XalanModel.Props.C20.deque_refines",
     "XalanModel.Props.C20.deque_observers",
     "XalanModel.Props.C20.deque_resize_as_written_counterexample",
+    "XalanModel.Props.C20.deque_swap_refines",
+    "XalanModel.Props.C20.deque_swap_as_written_counterexample",
     "XalanModel.Props.C20.list_constructNode_refines",
+    "XalanModel.Props.C20.list_node_source",
     "XalanModel.Props.C20.list_erase_refines",
+    "XalanModel.Props.C20.list_clear_refines",
+    "XalanModel.Props.C20.domstring_step_refines",
+    "XalanModel.Props.C20.domstring_refines",
+    "XalanModel.Props.C20.domstring_new_inv",
+    "XalanModel.Props.C20.domstring_erase_range_as_written_counterexample",
     "XalanModel.Props.C20.domstring_resize_as_written_counterexample",
     "XalanModel.Props.C20.domstring_substr_as_written_counterexample",
     "XalanModel.Props.C20.domstring_append_npos_as_written_counterexample",
@@ -72,12 +81,21 @@ CORPUS = [
     ("vec", ["vec push 0 1", "vec push 0 2", "vec insself 0 2 3 0"]),
     ("deq", ["deq new 0 10 0", "deq resize 0 4"]),
     ("deq", ["deq new 0 3 8", "deq resize 0 0"]),
+    ("deq", ["deq new 0 2 5", "deq new 1 3 0", "deq swap 1 0"]),
+    ("deq", ["deq new 0 2 0", "deq new 1 3 0", "deq push 0 1", "deq push 0 2", "deq push 0 3", "deq push 1 9", "deq swap 0 1",
+             "deq push 0 4", "deq push 1 5", "deq pop 1"]),
     ("str", ["str app 0 97.98", "str resize 0 5 120"]),
     ("str", ["str appn 0 0 5", "str resize 0 3 7"]),
     ("str", ["str app 0 1.2.3.4", "str substr 1 0 1 npos"]),
     ("str", ["str app 0 1.2.3.4", "str app 1 7", "str appsub 1 0 1 npos"]),
+    ("str", ["str eraser 0 0 0"]),
+    ("str", ["str app 1 5.6", "str assignit 0 1 1 1", "str resize 0 3 7"]),
+    ("str", ["str app 0 5.6", "str eraser 0 0 2", "str resize 0 2 8", "str resize 0 0 1", "str resize 0 4 9"]),
     ("map", ["map new 0 3 4 2 3", "map ins 0 1 10", "map ins 0 2 20", "map ins 0 3 30", "map erase 0 3", "map ins 0 7 70",
              "map erase 0 1", "map erase 0 2", "map ins 0 3 33", "map find 0 7", "map copy 1 0", "map swap 1 0"]),
+    # default-parameter map / set grown through the three first rehash points (41st, 88th, 188th distinct insertion)
+    ("map", ["map ins 0 %d %d" % (100 + 2 * i, i) for i in range(190)] + ["map find 0 180", "map erase 0 274", "map find 0 476"]),
+    ("set", ["set ins 0 %d" % (100 + 2 * i) for i in range(190)] + ["set count 0 180", "set erase 0 274", "set count 0 476"]),
     ("lst", ["lst pushb 0 1", "lst pushb 0 2", "lst save 0 0 1", "lst eraseat 0 0", "lst pushf 0 5", "lst deref 0 0",
              "lst pushb 1 7", "lst splice 1 0 0 1", "lst deref 0 1"]),
 ]
@@ -145,7 +163,7 @@ def run_stream(harness, model, seqs, workdir, tag, env=None, timeout=120):
                 leaked += int(il[-1].split()[1])
             except (IndexError, ValueError):
                 pass
-        if crashed_at is None or crashed_at + 1 >= len(seqs) or guard > 400 or timeouts >= 3:
+        if crashed_at is None or crashed_at + 1 >= len(seqs) or guard > 60 or timeouts >= 2:
             if crashed_at is None and not clean_end and start < len(seqs):
                 # died after the last reply (e.g. in a destructor): attribute to the last sequence
                 res[len(seqs) - 1] = ("crash", len(seqs[-1]) - 1, ierr[-1500:], "")
@@ -161,7 +179,7 @@ def run_stream(harness, model, seqs, workdir, tag, env=None, timeout=120):
         il, _ml, irc, _mrc, ierr, _merr = common.run_pair([harness], ["true"], req2, impl_env=e, timeout=timeout)
     for si in range(len(seqs)):
         if res[si] is None:
-            res[si] = ("unrun", 0, "not evaluated: the harness crashed more than 400 times (or hung 3 times) in this stream", "")
+            res[si] = ("unrun", 0, "not evaluated: the harness crashed more than 60 times (or hung twice) in this stream", "")
     return res, leaked, mseq
 
 
@@ -230,16 +248,16 @@ class Runner:
         env = {"ASAN_OPTIONS": "detect_leaks=0:abort_on_error=0"} if kind == "str" else None
         # a hang (e.g. a corrupted list that never reaches end()) is cut off and treated like a crash
         return run_stream(self.harness(kind), self.model, seqs, self.work, tag, env,
-                          timeout=(900 if self.ctx.thorough else 30) if len(seqs) > 1 else 5)
+                          timeout=(900 if self.ctx.thorough else 30) if len(seqs) > 1 else 3)
 
     def shrink(self, kind, ops, want, wanttag):
         cur = list(ops)
         improved = True
         rounds = 0
         self.shrunk = getattr(self, "shrunk", 0) + 1
-        if self.shrunk > 6:          # time box: only the first few failing cases of a run are minimised
+        if self.shrunk > 4:          # time box: only the first few failing cases of a run are minimised
             return cur
-        while improved and rounds < 120:
+        while improved and rounds < 60:
             improved = False
             for k in range(len(cur) - 1, -1, -1):
                 cand = cur[:k] + cur[k + 1:]
@@ -295,8 +313,10 @@ def exhaustive_small(kind):
                  "map erase 0 1", "map erase 0 2", "map set 0 1 9", "map clear 0", "map copy 1 0", "map swap 0 1"]
         n = 4
     elif kind == "deq":
-        alpha = ["deq new 0 2 0", "deq push 0 1", "deq push 0 2", "deq pop 0", "deq resize 0 1", "deq resize 0 3", "deq clear 0",
-                 "deq copy 1 0", "deq swap 0 1", "deq copyctor 1 0"]
+        # both deques get block size 2 first (swap between different block sizes is the known finding C20-deque-swap-blocksize)
+        pre = ["deq new 0 2 0", "deq new 1 2 0"]
+        alpha = ["deq push 0 1", "deq push 0 2", "deq pop 0", "deq resize 0 1", "deq resize 0 3", "deq clear 0",
+                 "deq copy 1 0", "deq swap 0 1", "deq copyctor 1 0", "deq push 1 7"]
         n = 5
     elif kind == "lst":
         alpha = ["lst pushb 0 1", "lst pushf 0 2", "lst popb 0", "lst popf 0", "lst insat 0 1 3", "lst eraseat 0 0",
@@ -309,10 +329,11 @@ def exhaustive_small(kind):
     else:
         return []
     out = []
+    setup = pre if kind == "deq" else []
     for k in range(1, n + 1):
         for combo in itertools.product(alpha, repeat=k):
-            if G.tags(kind, list(combo)) is not None:
-                out.append(list(combo))
+            if G.tags(kind, setup + list(combo)) is not None:
+                out.append(setup + list(combo))
     return out
 
 
@@ -347,16 +368,17 @@ def run(ctx):
         "str": (1500, 50) if not T else (20000, 150),
     }
     gens = {
-        "vec": lambda: G.gen_vec(r, plan["vec"][1], alias=(nbox[0] % 6 == 0 and nbox[0] < 1200)),
-        "map": lambda: G.gen_map(r, plan["map"][1] if not big_box[0] else 260, big=big_box[0]),
+        "vec": lambda: G.gen_vec(r, plan["vec"][1], alias=(nbox[0] % 3 == 0)),
+        "map": lambda: (G.gen_map_grow(r, 260) if nbox[0] % 12 == 6 else
+                        G.gen_map(r, plan["map"][1] if not big_box[0] else 260, big=big_box[0])),
         "set": lambda: G.gen_set(r, plan["set"][1]),
-        "deq": lambda: G.gen_deq(r, plan["deq"][1], multi=(nbox[0] % 4 == 0 and nbox[0] < 1200)),
+        "deq": lambda: G.gen_deq(r, plan["deq"][1], multi=(nbox[0] % 6 == 0 and nbox[0] < 1200)),
         "lst": lambda: G.gen_lst(r, plan["lst"][1]),
         "str": lambda: G.gen_str(r, plan["str"][1], defects=(nbox[0] % 5 == 0 and nbox[0] < 1500)),
     }
     big_box = [False]
-    # requests of the classes listed in known_findings.json (aliasing value, deque resize by > 1, string resize-grow /
-    # npos forms) are confined to a bounded number of sequences per stream: on the unrepaired tree every one of them ends
+    # requests of the classes listed in known_findings.json (deque swap with different block sizes, string
+    # erase(it,it) without a buffer) are confined to a bounded number of sequences per stream: on the unrepaired tree every one of them ends
     # its sequence (some abort the harness), on the repaired tree they are checked like everything else
     nbox = [0]
     agree = [True]
@@ -402,7 +424,7 @@ def run(ctx):
                 unrun[0] += 1
             elif st[0] != "ok":
                 nbad += 1
-                if nbad <= 40 or known(ctx, "%s.%s[%s]" % (kind, "std-mismatch" if st[0] == "std" else "crash",
+                if nbad <= 12 or known(ctx, "%s.%s[%s]" % (kind, "std-mismatch" if st[0] == "std" else "crash",
                                                               (G.tags(kind, ops) or ["?"] * len(ops))[st[1]])):
                     judge(ctx, rn, kind, ops, st, agree)
                 else:
